@@ -1,6 +1,8 @@
 (* Run/C19.v — Sx codec around Model/Paths.v for the correspondence check.
    leg calc:  (components #p) (join #a #b) (parent #p) (join_suffix #base #suffix) (check_id #id) (lru_key #id)
               (job #dir #id n #cwd (#output ...))
+   leg fs2:   ( archives ( op ... ) ),  op = (job ...) | (start key (job ...)) | (release key);
+              write also (replace #path #target)
    leg fs:    ( (job #id genuine run #cwd (#output ...) (member ...) (write ...)) ... )
               member = (file #name #content) | (dir #name) | (symlink #name #target);
               write = (file #path #content) | (symlink #path #target)
@@ -80,6 +82,7 @@ Definition dec_write (x : sx) : option jwrite :=
   | SL [t; p; c] =>
       if is_sym "file" t then Some (WFile (get_B p) (get_B c))
       else if is_sym "symlink" t then Some (WLink (get_B p) (get_B c))
+      else if is_sym "replace" t then Some (WReplace (get_B p) (get_B c))
       else None
   | _ => None
   end.
@@ -90,7 +93,7 @@ Definition dec_job (x : sx) : option job_req :=
       if is_sym "job" t then
         match all_some (map dec_member ins), all_some (map dec_write ws) with
         | Some ms, Some wl =>
-            Some {| r_id := get_B i; r_genuine := get_bool g; r_run := get_bool r; r_cwd := get_B c;
+            Some {| r_id := get_B i; r_genuine := get_N g; r_run := get_bool r; r_cwd := get_B c;
                     r_outs := map get_B outs; r_inputs := ms; r_writes := wl |}
         | _, _ => None
         end
@@ -121,17 +124,18 @@ Definition enc_submit (a : submit_res) : sx :=
                   | SCannotCache => "cannot_cache" end).
 Definition enc_run (a : run_res) : sx :=
   sym (match a with RSkipped => "skipped" | RComplete => "complete" | RNotFound => "job_not_found"
-                  | RErr => "err" end).
+                  | RErr => "err" | RRunning => "running" | RNotRunning => "not_running" end).
 
 Definition srv_build : bytes := bs "srv/build/".
 
-Definition enc_toolchains (b : builder) : sx :=
+Definition enc_toolchains (s : server) : sx :=
+  let b := bld s in
   SL (flat_map (fun id =>
         match blookup id (dirmap b) with
         | Some _ =>
             [ SL [sym "d"; SB id; SB []];
               SL [sym "d"; SB (id ++ bs "/tc_bin"); SB []];
-              SL [sym "f"; SB (id ++ bs "/tc_bin/tool"); SB tool_content];
+              SL [sym "f"; SB (id ++ bs "/tc_bin/tool"); SB (tool_content (kind_of s id))];
               SL [sym "d"; SB (id ++ bs "/tc_lib"); SB []] ]
         | None => [ SL [sym "d"; SB id; SB []] ]
         end) (unpacked b)).
@@ -148,15 +152,15 @@ Definition enc_cache (ids : list bytes) : sx :=
 
 Definition enc_job (x : job_obs * server) : sx :=
   let '(o, s) := x in
-  SL [ sym "job";
-       SL [sym "assign"; enc_assign (o_assign o)];
+  SL [ sym (if o_head o =? 1 then "start" else if o_head o =? 2 then "release" else "job");
+       SL [sym "assign"; if o_head o =? 2 then sym "skipped" else enc_assign (o_assign o)];
        SL [sym "submit"; enc_submit (o_submit o)];
        SL [sym "run"; enc_run (o_run o)];
        SL [sym "target"; match o_target o with Some t => SB (srv_build ++ t) | None => SL [] end];
        SL [sym "snap"; SL (tree_canon [] (o_snap o))];
        SL [sym "outputs"; SL (map (fun e => SL [SB (fst e); SB (snd e)]) (o_outputs o))];
        SL [sym "left"; SL (map SB (live (bld s)))];
-       SL [sym "toolchains"; enc_toolchains (bld s)];
+       SL [sym "toolchains"; enc_toolchains s];
        SL [sym "cache"; enc_cache (cached s)];
        SL [sym "escaped"; SL []] ].
 
@@ -164,7 +168,28 @@ Definition run_fs (x : sx) : sx :=
   match x with
   | SL js =>
       match all_some (map dec_job js) with
-      | Some rs => SL (map enc_job (do_jobs server0 1 rs))
+      | Some rs => SL (map enc_job (do_jobs (server0 0) 1 rs))
+      | None => SL [sym "unmodelled"]
+      end
+  | _ => err "bad case"
+  end.
+
+(* leg fs2: ( archives ( op ... ) ), op = (job ...) | (start key (job ...)) | (release key) *)
+Definition dec_op (x : sx) : option sop :=
+  match x with
+  | SL [t; k; j] =>
+      if is_sym "start" t then
+        match dec_job j with Some r => Some (OStart (get_N k) r) | None => None end
+      else None
+  | SL [t; k] => if is_sym "release" t then Some (ORelease (get_N k)) else None
+  | _ => match dec_job x with Some r => Some (OJob r) | None => None end
+  end.
+
+Definition run_fs2 (x : sx) : sx :=
+  match x with
+  | SL [c; SL ops] =>
+      match all_some (map dec_op ops) with
+      | Some os => SL (map enc_job (do_ops (server0 (get_N c)) 1 os))
       | None => SL [sym "unmodelled"]
       end
   | _ => err "bad case"
@@ -173,4 +198,5 @@ Definition run_fs (x : sx) : sx :=
 Definition dispatch (leg : list N) (x : sx) : sx :=
   if bytes_eqb leg (bs "calc") then run_calc x
   else if bytes_eqb leg (bs "fs") then run_fs x
+  else if bytes_eqb leg (bs "fs2") then run_fs2 x
   else err "unknown leg".
